@@ -3,8 +3,7 @@ import Hive.Proofs.BatchWriterPipe
 # C08 proofs, part 3: life cycle (running / Once / start phases / Stop / WaitGroup) and per-thread facts
 
 `TInv s t`: what thread `t` knows at its program point.  `LInv s`: shared-state facts about the life cycle,
-in particular `k`: after Stop cleared `running` without a producer inside the Enqueue window, the window
-stays empty.  `CFacts s t`: consequences of the counting invariants for the stepping thread.
+in particular `fin_win`: once the writer has left its loop no producer is past a successful running check.  `CFacts s t`: consequences of the counting invariants for the stepping thread.
 -/
 namespace Hive.BatchWriter
 open Hive.Conc Hive.Spec.BatchWriter
@@ -12,10 +11,10 @@ open Hive.Conc Hive.Spec.BatchWriter
 /-- What a thread knows at its program point (facts that other threads cannot invalidate). -/
 def TInv (s : St) : Thread → Prop
   | .prod p pc cur _ =>
-      ((pc ≠ .idle ∧ pc ≠ .inc ∧ pc ≠ .send ∧ pc ≠ .ret) → s.mon.mark p ≤ s.mon.wr cur) ∧
-      ((pc = .inc ∨ pc = .send) → s.mon.mark p + 1 ≤ s.mon.sch cur) ∧
-      (pc = .ret → s.mon.mark p + 1 ≤ s.mon.sch cur ∨ s.mon.stopCalled = true) ∧
-      ((pc = .chkRun ∨ pc = .cas ∨ pc = .inc ∨ pc = .send ∨ pc = .ret) → s.once = 3) ∧
+      ((pc ≠ .idle ∧ pc ≠ .send ∧ pc ≠ .undo ∧ pc ≠ .ret) → s.mon.mark p ≤ s.mon.wr cur) ∧
+      (pc = .send → s.mon.mark p + 1 ≤ s.mon.sch cur) ∧
+      ((pc = .undo ∨ pc = .ret) → s.mon.mark p + 1 ≤ s.mon.sch cur ∨ s.mon.stopCalled = true) ∧
+      ((pc = .inc ∨ pc = .chkRun ∨ pc = .cas ∨ pc = .send ∨ pc = .undo ∨ pc = .ret) → s.once = 3) ∧
       ((pc = .startUnlock ∨ pc = .onceEnd) → s.spawned = true)
   | .stopper _ pc =>
       (pc ≠ .idle → s.mon.stopCalled = true) ∧
@@ -36,7 +35,7 @@ structure LInv (s : St) : Prop where
   w_spawned : s.wpc ≠ .notStarted → s.spawned = true
   w_stopped : (s.wpc = .loopCnt ∨ s.wpc = .wgDone ∨ s.wpc = .exited) → s.stopped = true
   wg : s.wg = if s.added = true ∧ s.wpc ≠ .exited then 1 else 0
-  k : s.stopped = true → s.raced = false → s.win = 0
+  fin_win : (s.wpc = .wgDone ∨ s.wpc = .exited) → s.win = 0
   stopped_called : s.stopped = true → s.mon.stopCalled = true
   once_le : s.once ≤ 3
   run_started : s.running = true → s.started = true
@@ -57,11 +56,12 @@ macro "heavyL" : tactic => `(tactic|
       (try split) <;> (try simp_all) <;> (try omega)))
 
 set_option hygiene false in
-theorem linv_step {s s' : St} {t t' : Thread} (h : LInv s) (ht : TInv s t) (hc : CFacts s t)
-    (hm : (s', t') ∈ step s t) : LInv s' := by
+theorem linv_step_prod {s s' : St} {id cur : Nat} {pc : PPc} {script : List Nat} {t' : Thread} (h : LInv s) (ht : TInv s (Thread.prod id pc cur script)) (hc : CFacts s (Thread.prod id pc cur script))
+    (hexw : s.wpc = .loopCnt → s.count = 0 → s.win = 0)
+    (hm : (s', t') ∈ step s (Thread.prod id pc cur script)) : LInv s' := by
   obtain ⟨h1, h2, h3, h4, h5, h6, h7, h8, h9, h10, h11, h12, h13, h14, h15, h16⟩ := h
   obtain ⟨c1, c2, c3, c4, c5, c6⟩ := hc
-  step_cases
+  cases pc <;> step_common
   all_goals (
     refine ⟨?_, ?_, ?_, ?_, ?_, ?_, ?_, ?_, ?_, ?_, ?_, ?_, ?_, ?_, ?_, ?_⟩
     · first | exact h1 | heavyL
@@ -80,4 +80,124 @@ theorem linv_step {s s' : St} {t t' : Thread} (h : LInv s) (ht : TInv s t) (hc :
     · first | exact h14 | heavyL
     · first | exact h15 | heavyL
     · first | exact h16 | heavyL)
+
+set_option hygiene false in
+theorem linv_step_stop {s s' : St} {id : Nat} {pc : SPc} {t' : Thread} (h : LInv s) (ht : TInv s (Thread.stopper id pc)) (hc : CFacts s (Thread.stopper id pc))
+    (hexw : s.wpc = .loopCnt → s.count = 0 → s.win = 0)
+    (hm : (s', t') ∈ step s (Thread.stopper id pc)) : LInv s' := by
+  obtain ⟨h1, h2, h3, h4, h5, h6, h7, h8, h9, h10, h11, h12, h13, h14, h15, h16⟩ := h
+  obtain ⟨c1, c2, c3, c4, c5, c6⟩ := hc
+  cases pc <;> step_common
+  all_goals (
+    refine ⟨?_, ?_, ?_, ?_, ?_, ?_, ?_, ?_, ?_, ?_, ?_, ?_, ?_, ?_, ?_, ?_⟩
+    · first | exact h1 | heavyL
+    · first | exact h2 | heavyL
+    · first | exact h3 | heavyL
+    · first | exact h4 | heavyL
+    · first | exact h5 | heavyL
+    · first | exact h6 | heavyL
+    · first | exact h7 | heavyL
+    · first | exact h8 | heavyL
+    · first | exact h9 | heavyL
+    · first | exact h10 | heavyL
+    · first | exact h11 | heavyL
+    · first | exact h12 | heavyL
+    · first | exact h13 | heavyL
+    · first | exact h14 | heavyL
+    · first | exact h15 | heavyL
+    · first | exact h16 | heavyL)
+
+set_option hygiene false in
+theorem linv_step_flush {s s' : St} {l : Bool} {n : Nat} {t' : Thread} (h : LInv s) (ht : TInv s (Thread.flusher l n)) (hc : CFacts s (Thread.flusher l n))
+    (hexw : s.wpc = .loopCnt → s.count = 0 → s.win = 0)
+    (hm : (s', t') ∈ step s (Thread.flusher l n)) : LInv s' := by
+  obtain ⟨h1, h2, h3, h4, h5, h6, h7, h8, h9, h10, h11, h12, h13, h14, h15, h16⟩ := h
+  obtain ⟨c1, c2, c3, c4, c5, c6⟩ := hc
+  step_common
+  all_goals (
+    refine ⟨?_, ?_, ?_, ?_, ?_, ?_, ?_, ?_, ?_, ?_, ?_, ?_, ?_, ?_, ?_, ?_⟩
+    · first | exact h1 | heavyL
+    · first | exact h2 | heavyL
+    · first | exact h3 | heavyL
+    · first | exact h4 | heavyL
+    · first | exact h5 | heavyL
+    · first | exact h6 | heavyL
+    · first | exact h7 | heavyL
+    · first | exact h8 | heavyL
+    · first | exact h9 | heavyL
+    · first | exact h10 | heavyL
+    · first | exact h11 | heavyL
+    · first | exact h12 | heavyL
+    · first | exact h13 | heavyL
+    · first | exact h14 | heavyL
+    · first | exact h15 | heavyL
+    · first | exact h16 | heavyL)
+
+set_option hygiene false in
+theorem linv_step_obs {s s' : St} {script : List Nat} {t' : Thread} (h : LInv s) (ht : TInv s (Thread.obs script)) (hc : CFacts s (Thread.obs script))
+    (hexw : s.wpc = .loopCnt → s.count = 0 → s.win = 0)
+    (hm : (s', t') ∈ step s (Thread.obs script)) : LInv s' := by
+  obtain ⟨h1, h2, h3, h4, h5, h6, h7, h8, h9, h10, h11, h12, h13, h14, h15, h16⟩ := h
+  obtain ⟨c1, c2, c3, c4, c5, c6⟩ := hc
+  step_common
+  all_goals (
+    refine ⟨?_, ?_, ?_, ?_, ?_, ?_, ?_, ?_, ?_, ?_, ?_, ?_, ?_, ?_, ?_, ?_⟩
+    · first | exact h1 | heavyL
+    · first | exact h2 | heavyL
+    · first | exact h3 | heavyL
+    · first | exact h4 | heavyL
+    · first | exact h5 | heavyL
+    · first | exact h6 | heavyL
+    · first | exact h7 | heavyL
+    · first | exact h8 | heavyL
+    · first | exact h9 | heavyL
+    · first | exact h10 | heavyL
+    · first | exact h11 | heavyL
+    · first | exact h12 | heavyL
+    · first | exact h13 | heavyL
+    · first | exact h14 | heavyL
+    · first | exact h15 | heavyL
+    · first | exact h16 | heavyL)
+
+set_option hygiene false in
+theorem linv_step_writer {s s' : St} {t' : Thread} (h : LInv s)
+    (hexw : s.wpc = .loopCnt → s.count = 0 → s.win = 0)
+    (hm : (s', t') ∈ step s Thread.writer) : LInv s' := by
+  obtain ⟨h1, h2, h3, h4, h5, h6, h7, h8, h9, h10, h11, h12, h13, h14, h15, h16⟩ := h
+  rw [mem_step_writer] at hm
+  obtain ⟨rfl, hm⟩ := hm
+  simp only [stepWriter, recvStep, afterCommit] at hm
+  split at hm <;> (repeat' split at hm) <;>
+    simp only [List.mem_singleton, List.not_mem_nil, List.mem_nil_iff, List.mem_append, List.mem_cons,
+      or_false, false_or, List.nil_append, List.append_nil] at hm <;> (try exact hm.elim) <;>
+    (repeat' (first | subst hm | obtain hm | hm := hm))
+  all_goals (
+    refine ⟨?_, ?_, ?_, ?_, ?_, ?_, ?_, ?_, ?_, ?_, ?_, ?_, ?_, ?_, ?_, ?_⟩
+    · first | exact h1 | heavyL
+    · first | exact h2 | heavyL
+    · first | exact h3 | heavyL
+    · first | exact h4 | heavyL
+    · first | exact h5 | heavyL
+    · first | exact h6 | heavyL
+    · first | exact h7 | heavyL
+    · first | exact h8 | heavyL
+    · first | exact h9 | heavyL
+    · first | exact h10 | heavyL
+    · first | exact h11 | heavyL
+    · first | exact h12 | heavyL
+    · first | exact h13 | heavyL
+    · first | exact h14 | heavyL
+    · first | exact h15 | heavyL
+    · first | exact h16 | heavyL)
+
+theorem linv_step {s s' : St} {t t' : Thread} (h : LInv s) (ht : TInv s t) (hc : CFacts s t)
+    (hexw : s.wpc = .loopCnt → s.count = 0 → s.win = 0)
+    (hm : (s', t') ∈ step s t) : LInv s' := by
+  cases t with
+  | prod id pc cur script => exact linv_step_prod h ht hc hexw hm
+  | stopper id pc => exact linv_step_stop h ht hc hexw hm
+  | flusher l n => exact linv_step_flush h ht hc hexw hm
+  | writer => exact linv_step_writer h hexw hm
+  | obs script => exact linv_step_obs h ht hc hexw hm
+
 end Hive.BatchWriter
